@@ -133,6 +133,17 @@ FOREIGN_UUIDS = ["e4b1c2d0-7e2c-11ea-bc55-0242ac130003", "a2c1f5a0-1d2c-11ec-962
 def run_library(doc, ver, route, targets=None):
     import stix2
     from stix2 import registry
+    if route == "constructor-marking-object":
+        # `definition` handed over as an already-built marking object (the guide's form): of the class definition_type names, or of another
+        import stix2.v20
+        import stix2.v21
+        mod = stix2.v20 if ver == "2.0" else stix2.v21
+        mo = (targets or {}).get("marking_obj")
+        inner, exc = core.guarded(getattr(mod, mo["cls"]), **mo["kw"])
+        if exc is not None:
+            return None, exc
+        kw = {k: v for k, v in doc.items() if k not in ("type", "definition")}
+        return core.guarded(mod.MarkingDefinition, definition=inner, **kw)
     if route == "constructor-built-refs":
         # every reference listed in `targets` handed over as the already-built 2.1 object it names (reference properties take objects)
         built = {}
@@ -417,6 +428,24 @@ def run(ctx):
                  fp=core.fingerprint([case["ver"], case["foreign"], case["route"], len(case["doc"]["objects"])]))
         ctx.handle(case, fails)
     core.run_given(ctx, bundle_foreign_member_case(), body_bundle, ctx.n(120, 1200), label="c02-bundle-foreign-member")
+
+    # marking definitions whose `definition` is an already-built marking object, of the right and of the wrong class (finite)
+    ctx.collect_only = True
+    for ver in ("2.0", "2.1"):
+        m = M.get(ver)
+        base = {"type": "marking-definition", "id": "marking-definition--3f2504e0-4f89-41d3-9a0c-0305e82c3301", "created": "2020-01-01T00:00:00.000Z"}
+        if ver == "2.1":
+            base["spec_version"] = "2.1"
+        tlp_white = dict(base, id=m.tlp["white"], created=m.tlp_created, **({"name": "TLP:WHITE"} if ver == "2.1" else {}))
+        objs = {"tlp": {"cls": "TLPMarking", "kw": {"tlp": "white"}}, "statement": {"cls": "StatementMarking", "kw": {"statement": "s"}}}
+        for dtype, holder in (("statement", base), ("tlp", tlp_white)):
+            for given in ("tlp", "statement"):
+                doc = dict(holder, definition_type=dtype, definition=dict(objs[given]["kw"]))
+                case = {"ver": ver, "doc": doc, "corruptions": [], "route": "constructor-marking-object", "targets": {"marking_obj": objs[given]}}
+                fails = check_case(case)
+                ctx.note(case, dtype != given, ["route:constructor-marking-object", "marking-object:%s-as-%s" % (given, dtype)], fp=core.fingerprint([ver, dtype, given]))
+                ctx.handle(case, fails)
+    ctx.collect_only = False
 
     # the eight fixed TLP instances, every corruption, every route (finite: enumerated completely)
     ctx.collect_only = True
